@@ -32,7 +32,8 @@ def check_cuts_array(
     if cuts.ndim != 2:
         raise ValueError("The cuts must be a 2D array.")
 
-    if not np.issubdtype(cuts.dtype, np.integer):
+    # The dtype kind, as `np.timedelta64` is a subtype of `np.signedinteger`.
+    if cuts.dtype.kind not in "iu":
         raise ValueError("The cuts must be of integer type.")
 
     if cuts.shape[-1] != last_dim_size:
